@@ -784,10 +784,43 @@ class IntDom:
             r.srng = (sr[0] >> k, sr[1] >> k)
         return r
 
+    def _rng_for(self, x, signed_view):
+        if x.c is not None:
+            v = x.sc if signed_view else x.c
+            return (v, v)
+        return self._srng(x) if signed_view else self._urng(x)
+
+    def _icmp_by_range(self, pred, a, b):
+        """decide a comparison from the tracked value intervals (python bool) or None"""
+        if pred in ("eq", "ne"):
+            for sv in (False, True):
+                ra, rb = self._rng_for(a, sv), self._rng_for(b, sv)
+                if ra is not None and rb is not None and (ra[1] < rb[0] or rb[1] < ra[0]):
+                    return pred == "ne"
+            return None
+        sv = pred[0] == "s"
+        ra, rb = self._rng_for(a, sv), self._rng_for(b, sv)
+        if ra is None or rb is None:
+            return None
+        op = pred[1:]
+        if op == "lt":
+            return True if ra[1] < rb[0] else (False if ra[0] >= rb[1] else None)
+        if op == "le":
+            return True if ra[1] <= rb[0] else (False if ra[0] > rb[1] else None)
+        if op == "gt":
+            return True if ra[0] > rb[1] else (False if ra[1] <= rb[0] else None)
+        if op == "ge":
+            return True if ra[0] >= rb[1] else (False if ra[1] < rb[0] else None)
+        return None
+
     def icmp(self, pred, a, b):
         n = a.bits
         if a.c is not None and b.c is not None:
             return conc_icmp(pred, a.c, b.c, n)
+        if a.lazy is None and b.lazy is None:
+            byr = self._icmp_by_range(pred, a, b)
+            if byr is not None:
+                return byr
         if a.lazy is not None and b.c is not None:
             if (pred == "slt" and b.c == 0) or (pred == "sle" and b.sc == -1):
                 return self.sign_neg(a)
